@@ -8,9 +8,39 @@ order of the individuals inside each front; the helpers of the log-time sort are
 compared call by call on the arguments they receive inside real runs (traced) and on direct calls.
 """
 import itertools
+import signal
 import time
 
 from vlib import cz, czl, cbool, clist, cnatl
+
+
+# ----------------------------------------------------------------------------------------------
+# running the implementation under a CPU-time budget (a broken loop condition must become a
+# reported failing input, not a hung or memory-exhausted check)
+# ----------------------------------------------------------------------------------------------
+class CpuBudgetExceeded(BaseException):
+    pass
+
+
+def _on_vtalarm(signum, frame):
+    raise CpuBudgetExceeded()
+
+
+def budgeted(fn, *args, **kw):
+    """-> ('ok', result) | ('timeout', None) | ('raise', 'ExcName: msg'); budget is process CPU time, so
+    machine load cannot trigger it (normal calls take well under a millisecond)."""
+    budget = kw.pop("budget", 0.4)
+    old = signal.signal(signal.SIGVTALRM, _on_vtalarm)
+    signal.setitimer(signal.ITIMER_VIRTUAL, budget)
+    try:
+        return ("ok", fn(*args))
+    except CpuBudgetExceeded:
+        return ("timeout", None)
+    except Exception as e:  # noqa
+        return ("raise", "%s: %s" % (type(e).__name__, str(e)[:120]))
+    finally:
+        signal.setitimer(signal.ITIMER_VIRTUAL, 0)
+        signal.signal(signal.SIGVTALRM, old)
 
 
 # ----------------------------------------------------------------------------------------------
@@ -157,13 +187,18 @@ def main(run):
         if ks is None:
             ks = list(range(0, n + 2))
         calls = []
+        failed = False
         for k in ks:
             for ffo in (False, True):
                 case = dict(base_case, k=k, first_front_only=ffo)
                 exp = o_expected(ws, k, ffo)
                 if n == 0 and k != 0:
                     exp = [[]]      # outside the quantifier (population of 1..N); the code returns one empty front
-                r1 = tools.sortNondominated(pop, k, ffo)
+                st, r1 = budgeted(tools.sortNondominated, pop, k, ffo)
+                if st != "ok":
+                    run.oracle_violation("sortNondominated does not return fronts (%s)" % (st if st == "timeout" else r1), case)
+                    failed = True
+                    continue
                 c1 = canon(r1, idmap, case, "sortNondominated")
                 if c1 is None:
                     c1 = []
@@ -186,7 +221,11 @@ def main(run):
                             run.oracle_violation("sortNondominated: equal fitnesses in different fronts", case, observed=c1)
                             break
                 if do_log:
-                    r2 = tools.sortLogNondominated(pop, k, ffo)
+                    st, r2 = budgeted(tools.sortLogNondominated, pop, k, ffo)
+                    if st != "ok":
+                        run.oracle_violation("sortLogNondominated does not return fronts (%s)" % (st if st == "timeout" else r2), case)
+                        failed = True
+                        continue
                     flat = ffo and k != 0
                     c2 = canon([r2] if flat else r2, idmap, case, "sortLogNondominated")
                     if c2 is None:
@@ -209,6 +248,9 @@ def main(run):
                     lg = "OLSkip"
                 calls.append("(mkcall %s %s %s %s)" % (cz(k), cbool(ffo), clist([cnatl(f) for f in c1]), lg))
         case = dict(base_case, ks=list(ks))
+        if failed:
+            run.note_case(case, n >= 2)
+            return
         add("CSort %s %s" % (cwl(ws_impl), clist(calls)), case, n >= 2)
 
     # -------- helper-level tracing inside real runs of sortLogNondominated --------
@@ -282,10 +324,12 @@ def main(run):
             emo.sweepA = wrap_front("sA", "sweepA", 1)
             emo.sweepB = wrap_front("sB", "sweepB", 2)
             emo.splitA, emo.splitB, emo.median, emo.isDominated = w_splitA, w_splitB, w_median, w_isdom
-            emo.sortLogNondominated(mkpop(w, vals), len(vals))
+            st, _ = budgeted(emo.sortLogNondominated, mkpop(w, vals), len(vals))
         finally:
             for n_, f in orig.items():
                 setattr(emo, n_, f)
+        if st != "ok":
+            return      # reported by sort_case on the same population
         rng.shuffle(log)
         for kind, args, pre, post in log:
             if helper_budget.get(kind, 0) <= 0:
@@ -331,10 +375,9 @@ def main(run):
 
     def direct_helpers(count):
         for _ in range(count):
-            try:
-                direct_helper_once()
-            except (IndexError, KeyError, ValueError, TypeError):
-                run.extra_cov["direct_helper_calls_raising"] = run.extra_cov.get("direct_helper_calls_raising", 0) + 1
+            st, _ = budgeted(direct_helper_once)
+            if st != "ok":
+                run.extra_cov["direct_helper_calls_not_returning"] = run.extra_cov.get("direct_helper_calls_not_returning", 0) + 1
 
     def direct_helper_once():
         if True:
@@ -505,15 +548,15 @@ def main(run):
                 for ffo in (False, True):
                     exp = o_expected(ws, k, ffo)
                     case = {"kind": "sort", "weights": list(w), "values": [list(v) for v in vals], "k": k, "first_front_only": ffo}
-                    r1 = tools.sortNondominated(pop, k, ffo)
-                    got = [sorted(idmap.get(id(x), -1) for x in f) for f in r1]
+                    st, r1 = budgeted(tools.sortNondominated, pop, k, ffo)
+                    got = [sorted(idmap.get(id(x), -1) for x in f) for f in r1] if st == "ok" else st
                     if got != exp:
                         run_.oracle_violation("sortNondominated: fronts differ from dominance depth by peeling", case, observed=got)
                     if len(w) >= 2:
-                        r2 = tools.sortLogNondominated(pop, k, ffo)
-                        if ffo and k != 0:
+                        st, r2 = budgeted(tools.sortLogNondominated, pop, k, ffo)
+                        if st == "ok" and ffo and k != 0:
                             r2 = [r2]
-                        got = [sorted(idmap.get(id(x), -1) for x in f) for f in r2]
+                        got = [sorted(idmap.get(id(x), -1) for x in f) for f in r2] if st == "ok" else st
                         if got != exp:
                             run_.oracle_violation("sortLogNondominated: fronts differ from dominance depth by peeling", case, observed=got)
     run.search_fn = search
